@@ -316,6 +316,27 @@ theorem disconnect_absorbs_oserror (t : Transport) (f : CloseFault) (hf : ∀ c,
     | atClose c => simp [absorb_oserror c (hf c rfl)]
     | atWaitClosed c => simp [absorb_oserror c (hf c rfl)]
 
+/-- `disconnect` never takes bytes off the stream: whatever the writes put there is still there afterwards,
+whether `close()` / `wait_closed()` raised or not (what the peer of the connection is to receive before the end
+of the stream). -/
+theorem disconnect_keeps_written_bytes (cn : Conn) (f : CloseFault) :
+    ((Transport.disconnect { conn := some cn } f).2.conn.map fun c => c.writer.out) = some cn.writer.out := by
+  cases f <;> simp [Transport.disconnect]
+
+/-- **C17, a whole session.** `connect`, any number of `write`s, `disconnect`, without faults: every call returns
+normally, and the connection's stream holds exactly the UTF-8 bytes of the lines, in call order, and is closed —
+i.e. the peer receives every line written before the disconnect and then the end of the stream. -/
+theorem session_delivers_lines_then_closes (t : Transport) (L : Nat) (lines : List Str) :
+    (t.connect L none).1 = none ∧
+    (writeAll (t.connect L none).2 (lines.map fun l => (l, .clean))).1 = lines.map (fun _ => none) ∧
+    ((writeAll (t.connect L none).2 (lines.map fun l => (l, .clean))).2.disconnect .clean).1 = none ∧
+    (((writeAll (t.connect L none).2 (lines.map fun l => (l, .clean))).2.disconnect .clean).2.conn.map fun c => c.writer) =
+      some { out := (lines.map encodeUtf8).flatten, closed := true } := by
+  have h := write_bytes_no_fault { reader := { limit := L } } lines
+  simp only [connect_success, connected]
+  rw [h]
+  simp [Transport.disconnect]
+
 /-! ### Non-vacuity -/
 
 /-- A stand-in decoder for the examples: ASCII only. -/
@@ -377,5 +398,11 @@ example : IsOSError .OSError ∧ IsOSError .FileNotFoundError ∧ ¬ IsOSError .
 
 example : (writeAll (connected 8) [(['a'], .clean), (['b'], .atWrite .OSError), (['c'], .atDrain .OSError),
     (['d'], .clean)]).1 = [none, some (.lib .transportFailed), some (.lib .transportFailed), none] := by decide
+
+/-- A session of two lines: both reach the stream, in order, and the stream is closed. -/
+example : (((writeAll ((({} : Transport).connect 8 none).2) [(['a', '\n'], .clean), (['b', '\n'], .clean)]).2.disconnect
+    .clean).2.conn.map fun c => c.writer) =
+      some { out := encodeUtf8 ['a', '\n'] ++ encodeUtf8 ['b', '\n'], closed := true } := by
+  simp [writeAll, Transport.write, Transport.disconnect, Transport.connect]
 
 end AioMySensors.C17
